@@ -12,6 +12,8 @@ def convKind (u : CUnit) : Option Kind :=
     | .absolute => some .absolute
     | .angle => some .angle
     | .time => some .time
+    | .frequency => some .frequency
+    | .resolution => some .resolution
     | _ => none
   | _ => none
 
